@@ -29,7 +29,7 @@ open(V + '/seeded/README.md', 'w').write("""# Seeded changes and which checks ca
 
 Each directory holds `patch.diff` (apply with `git -C /repo apply /verif/seeded/<id>/patch.diff`, undo with
 `git -C /repo checkout -- .`), the demonstration test that fails with the change and passes without it, and
-`meta.json` (what was run: both builds, the 61 baseline tests with the change, the demo with/without, the quick
+`meta.json` (`applies_to_repo_commit` where the patch is against an older /repo commit; what was run: both builds, the 61 baseline tests with the change, the demo with/without, the quick
 checks).  `caught(replay)` = the check printed VIOLATION with a failing history replayed on the crate;
 `caught(nfi)` = the correspondence broke but no monitor of that property rejected a crate trace
 (`no-failing-input-found`); `quiet` = exit 0.  m* were written in round 1; n*, p* in round 2 by independent
